@@ -21,6 +21,8 @@ import (
 type c11World struct {
 	// what the peer "sends"
 	respond func(r gateway.Object) error
+	respondPeer func(p *Peer, r gateway.Object) error
+	validated map[types.BlockID]bool
 	request func(r gateway.Object) error
 	wrote   []gateway.Object
 	// abstract consensus verdicts
@@ -35,6 +37,9 @@ var c11 *c11World
 //verif:replace (*go.sia.tech/coreutils/syncer.Peer).callRPC
 func stubCallRPC(p *Peer, r gateway.Object, timeout time.Duration) error {
 	c11.log = append(c11.log, "call")
+	if c11.respondPeer != nil {
+		return c11.respondPeer(p, r)
+	}
 	return c11.respond(r)
 }
 
@@ -89,6 +94,8 @@ type vCM struct {
 	known    map[types.BlockID]consensus.State
 	addErr   bool
 	added    [][]types.Block
+	addedV2  []types.Block
+	addedStates []consensus.State
 	poolTxns int
 	poolErr  bool
 	log      *[]string
@@ -114,7 +121,15 @@ func (c *vCM) AddBlocks(blocks []types.Block) error {
 	}
 	return nil
 }
-func (c *vCM) AddValidatedV2Blocks(blocks []types.Block, states []consensus.State) error { return nil }
+func (c *vCM) AddValidatedV2Blocks(blocks []types.Block, states []consensus.State) error {
+	*c.log = append(*c.log, "add-validated")
+	c.addedV2 = append(c.addedV2, blocks...)
+	c.addedStates = append(c.addedStates, states...)
+	if len(blocks) != len(states) {
+		return errors.New("chain: blocks and states differ in length")
+	}
+	return nil
+}
 func (c *vCM) Tip() types.ChainIndex                                                  { return c.tip.Index }
 func (c *vCM) TipState() consensus.State                                              { return c.tip }
 func (c *vCM) PoolTransaction(txid types.TransactionID) (types.Transaction, bool) {
